@@ -399,6 +399,48 @@ pub fn run(prop: &str, tier: &str, replay: Option<&str>) -> i32 {
         });
         rep.add(sec);
     }
+    // 2b. error texts: the key next to something public in one input (trailing data, leading data, wrapped): a parser that
+    // stops after a valid public object, or that describes what it did not expect, must not print the rest
+    {
+        let sec = Section::new("errors-concatenations", "per key: the private key DER after / before / between / inside public objects (its own SubjectPublicKeyInfo, a certificate and a request made with it, a NULL, nothing) and twice in a row, as DER and PEM-wrapped under five labels, through every loader and parser: error texts and panic messages carry no key material").with_deadline(if thorough { 600 } else { 30 });
+        let cases: Vec<usize> = (0..keys.len()).filter(|i| !keys[*i].label.starts_with("generated") || thorough).filter(|i| thorough || !keys[*i].alg.is_rsa() || keys[*i].label.contains("rsa2048_1")).collect();
+        run::sweep_cases(&sec, &cases, &|i| keys[*i].label.clone(), &|i| {
+            let k = &keys[*i];
+            let mut out = Outcome::default();
+            let spki = k.kp.public_key_der();
+            let cert = rcgen::CertificateParams::default().self_signed(&k.kp).map(|c| c.der().to_vec()).unwrap_or_default();
+            let csr = rcgen::CertificateParams::default().serialize_request(&k.kp).map(|c| c.der().to_vec()).unwrap_or_default();
+            let publics: Vec<Vec<u8>> = vec![spki, cert, csr, vec![0x05, 0x00], vec![]];
+            let key = &k.der;
+            let mut inputs: Vec<Vec<u8>> = Vec::new();
+            for p in &publics {
+                inputs.push([p.as_slice(), key.as_slice()].concat());
+                inputs.push([key.as_slice(), p.as_slice()].concat());
+                inputs.push([p.as_slice(), key.as_slice(), p.as_slice()].concat());
+                inputs.push(refmodel::der::seq(&[p.clone(), key.clone()]));
+                inputs.push(refmodel::der::seq(&[key.clone(), p.clone()]));
+            }
+            inputs.push([key.as_slice(), key.as_slice()].concat());
+            inputs.push(refmodel::der::octet(key));
+            inputs.push(refmodel::der::ctx_cons(0, key));
+            inputs.push(refmodel::der::seq(&[refmodel::der::seq(&[key.clone()])]));
+            for inp in &inputs {
+                out.transitions += loaders_errors(inp, None, &k.needles, &mut out.findings);
+                for label in ["PUBLIC KEY", "CERTIFICATE", "CERTIFICATE REQUEST", "PRIVATE KEY", "EC PRIVATE KEY"] {
+                    let text = refmodel::pem::encode(label, inp);
+                    out.transitions += loaders_errors(&[], Some(&text), &k.needles, &mut out.findings);
+                }
+                if out.findings.len() > 6 {
+                    break;
+                }
+            }
+            out.findings.dedup_by(|a, b| a.sig() == b.sig());
+            out.findings.truncate(6);
+            out.digest = fnv(k.label.as_bytes());
+            out
+        });
+        rep.add(sec);
+    }
     // 3. error texts: edits of the key's PEM text
     let bundle_cert_pem: String = {
         let z = load_zoo();
